@@ -504,7 +504,7 @@ func loadFactor() float64 {
 
 // solveAll discharges a list of obligations: stage 1 (first configuration, 2 s) for all of them in parallel; then the
 // configuration that decided the obligation on an earlier run, alone; then the race of all configurations, two
-// obligations at a time; then, for the first few still undecided, the race once more with three times the time and
+// obligations at a time; then, for the first two that timed out, the race once more with twice the time and
 // nothing else running (a timeout under load is not a verdict).
 func solveAll(dir string, obls []*Obligation, tmo time.Duration) {
 	lf := loadFactor()
@@ -566,14 +566,14 @@ func solveAll(dir string, obls []*Obligation, tmo time.Duration) {
 	retried := 0
 	for _, i := range rest {
 		o := obls[i]
-		if o.Finding != nil || (o.Result.Status != "timeout" && o.Result.Status != "unknown") || retried >= 3 {
-			continue
+		if o.Finding != nil || o.Result.Status != "timeout" || retried >= 2 {
+			continue // `unknown` from every configuration is an answer (instantiation ran dry), a timeout is not
 		}
 		if _, err := os.Stat(files[i]); err != nil {
 			continue
 		}
 		retried++
-		o.Result = solveStage2(files[i], o.Result, 3*tmo)
+		o.Result = solveStage2(files[i], o.Result, 2*tmo)
 	}
 	if os.Getenv("GOVC_LEARN") != "" {
 		learnHints(obls, hard)
@@ -587,6 +587,15 @@ func learnHints(obls []*Obligation, hard []int) {
 	cur := map[string]solverHint{}
 	if b, err := os.ReadFile(path); err == nil {
 		json.Unmarshal(b, &cur)
+	}
+	isHard := map[int]bool{}
+	for _, i := range hard {
+		isHard[i] = true
+	}
+	for i, o := range obls {
+		if !isHard[i] {
+			delete(cur, o.Name) // decided by the first configuration this time: no hint needed any more
+		}
 	}
 	for _, i := range hard {
 		o := obls[i]
